@@ -173,7 +173,11 @@ func (store *BaseStore[E]) createCompositeEntitySymbol(name string, first linked
 		symbolType:  rest.GetType(),
 		chain:       iterable,
 		cursor:      nil,
-		cursorLastF: last.Eval,
+		cursorLastF: func(tx *bbolt.Tx, key []byte) (FieldType, []byte) {
+			// key is a set cursor key, i.e. the row id prefixed with its field type
+			_, rowId := GetTypeAndValue(key)
+			return last.Eval(tx, rowId)
+		},
 	}
 }
 
